@@ -1,15 +1,211 @@
 import JominiModel.Model.TextReader
+import JominiModel.Spec.TextReader
+import JominiModel.Proofs.SwarReader
+import JominiModel.Proofs.TextReader
+import JominiModel.Proofs.TextReaderStream
 import JominiModel.Generated.Tables
 /-
 C07 — the streaming text reader is independent of read chunking and buffer size.
-Only property theorems live here; helper lemmas are in `Proofs/TextReader*.lean`, `Proofs/SwarReader.lean`.
+Only property theorems live here; helper lemmas are in `Proofs/TextReader*.lean` and
+`Proofs/SwarReader.lean` (the only file with `bv_decide`).
+
+Proved here (about the model `Model/TextReader.lean`):
+* the SWAR word functions meet their byte-level specifications (all 2^64 words);
+* the measured boundary / blank tables are the ones the model uses;
+* resume lemmas: resuming at the recorded offset after a refill is the scan of the extended
+  body from its start (first scan, re-scan, second and later refills, unquoted);
+* no token is split: a token decided inside a window is the token of every extension;
+* one call of `next_opt_fallback` under EVERY fault-free schedule returns what the byte-at-a-time
+  reference step over the whole remaining input returns (buffer larger than the remaining input);
+* whole stream, fast path out of play: streamed tokens = from-slice tokens, same terminal outcome,
+  final position = |data| at a clean end, for every fault-free schedule and every cap > |data|.
+
+Not proved (decided by the correspondence run + implementation oracle only), full statements kept below:
+* `C07_fallback_schedule_independent` for every capacity that merely *fits* the longest token/comment
+  (the proved `_partial` needs cap > |data|; missing: relating every refill's carry to the longest item so that
+  `fill_buf` never reports `BufferFull`);
+* `C07_fast_eq_fallback`, hence `C07_stream_eq_slice` with the fast path in play;
+* `C07_overflow_is_error`.
 -/
 namespace Jomini.Props.C07
-open Jomini Jomini.TextReader
+open Jomini Jomini.TextReader Jomini.TextReader.Spec Jomini.TextReader.Swar
+
+/-! ### measured tables -/
 
 /-- the model's boundary table is the one measured from the compiled `data::is_boundary`. -/
 theorem C07_boundary_table :
     (List.range 256).map (fun n => isBoundary (UInt8.ofNat n)) = Jomini.Tables.textBoundary := by
   decide +kernel
+
+/-- the bytes the model's `next_opt_fallback` skips between tokens are the ones measured on the compiled reader
+(`[b] ++ "a"` lexes to exactly `a`). -/
+theorem C07_blank_table :
+    (List.range 256).map (fun n => isBlank (UInt8.ofNat n)) = Jomini.Tables.textReaderBlank := by
+  decide +kernel
+
+/-! ### SWAR -/
+
+/-- `leading_whitespace` on a little-endian word returns the number of leading bytes that are `\t` or `\n`. -/
+theorem C07_leadingWhitespace_spec (b0 b1 b2 b3 b4 b5 b6 b7 : UInt8) :
+    leadingWhitespace (le64 b0 b1 b2 b3 b4 b5 b6 b7) =
+      ([b0, b1, b2, b3, b4, b5, b6, b7].takeWhile (fun b => b == 9 || b == 10)).length :=
+  leadingWhitespace_spec b0 b1 b2 b3 b4 b5 b6 b7
+
+example : leadingWhitespace (le64 9 10 9 32 9 9 9 9) = 3 := by decide
+
+/-- the quote finder of `next_opt`: `t2 != 0` iff one of the eight bytes is `"`, and
+`t2.trailing_zeros() >> 3` is the index of the first one (8 if none). -/
+theorem C07_quoteFinder_spec (b0 b1 b2 b3 b4 b5 b6 b7 : UInt8) :
+    (quoteMask (le64 b0 b1 b2 b3 b4 b5 b6 b7) != 0#64) = [b0, b1, b2, b3, b4, b5, b6, b7].any (· == 34) ∧
+    trailingZeros (quoteMask (le64 b0 b1 b2 b3 b4 b5 b6 b7)) >>> 3 =
+      ([b0, b1, b2, b3, b4, b5, b6, b7].takeWhile (fun b => !(b == 34))).length :=
+  quoteFinder_spec b0 b1 b2 b3 b4 b5 b6 b7
+
+example : trailingZeros (quoteMask (le64 97 98 34 99 34 0 0 0)) >>> 3 = 2 := by decide
+
+/-- `contains_zero_byte` is true iff one of the eight bytes is zero. -/
+theorem C07_containsZeroByte_spec (b0 b1 b2 b3 b4 b5 b6 b7 : UInt8) :
+    containsZeroByte (le64 b0 b1 b2 b3 b4 b5 b6 b7) = [b0, b1, b2, b3, b4, b5, b6, b7].any (· == 0) :=
+  containsZeroByte_spec b0 b1 b2 b3 b4 b5 b6 b7
+
+/-- the form in which the reader uses it: `contains_zero_byte(data ^ repeat_byte(c))` iff some byte equals `c`. -/
+theorem C07_containsByte_spec (b0 b1 b2 b3 b4 b5 b6 b7 c : UInt8) :
+    containsZeroByte (le64 b0 b1 b2 b3 b4 b5 b6 b7 ^^^ repeatByte c) =
+      [b0, b1, b2, b3, b4, b5, b6, b7].any (· == c) :=
+  containsByte_spec b0 b1 b2 b3 b4 b5 b6 b7 c
+
+/-! ### resume lemmas (`TextReader_resume_*` of the design) -/
+
+/-- **resume inside a quoted scalar, first refill**: if the first scan of the body `w` (the bytes after the
+opening quote that are in the window) ran out of window and recorded `(carry, off)`, then for every continuation
+`b` the re-scan of `next_opt_refill`'s `Quote` arm, started at `off` on the extended body, finds the closing quote
+at `n` iff the scan of the extended body from its start does.  (No byte is skipped, none is read in a different
+escape state: a trailing backslash makes the scan resume AT the backslash.) -/
+theorem C07_resume_quote {w : Bytes} {carry off : Nat} (b : Bytes) (n : Nat)
+    (h : quoteScan w 0 = .more carry off) :
+    quoteRescan (w ++ b).length ((w ++ b).drop off) off = .closed n ↔ quoteScan (w ++ b) 0 = .closed n :=
+  resume_quote b n h
+
+-- the hypothesis is satisfiable, non-trivially: body `a\"\` (escaped quote, then a backslash as last byte)
+example : quoteScan [97, 92, 34, 92] 0 = .more 4 3 := by decide
+example : quoteRescan 6 ((([97, 92, 34, 92] : Bytes) ++ [34, 34]).drop 3) 3 = .closed 5 := by decide
+
+/-- **second and later refills of one string** (the offset recorded by the re-scan itself). -/
+theorem C07_resume_quote_again {w : Bytes} {i carry off : Nat} (b : Bytes) (n : Nat)
+    (h : quoteRescan (i + w.length) w i = .more carry off) :
+    quoteRescan (i + (w ++ b).length) ((w ++ b).drop (off - i)) off = .closed n ↔
+      quoteRescan (i + (w ++ b).length) (w ++ b) i = .closed n :=
+  resume_quote_again b n h
+
+example : quoteRescan (0 + 3) [97, 98, 92] 0 = .more 3 2 := by decide
+
+/-- both scans carry the whole body over, and the offset they record lies inside it. -/
+theorem C07_resume_quote_carry {w : Bytes} {carry off : Nat} (h : quoteScan w 0 = .more carry off) :
+    carry = w.length ∧ off ≤ carry ∧ quoteEnd w 0 = none := by
+  obtain ⟨h1, h2, _, h4, _⟩ := quoteScan_more h
+  exact ⟨by simpa using h2, h4, h1⟩
+
+/-- **resume inside an unquoted scalar**: the first scan found no boundary in `a`; resuming at
+`offset = carry_over = |a|` on the extended window is the scan of the extended window from its start. -/
+theorem C07_resume_unquoted {a : Bytes} {i : Nat} (b : Bytes) (h : findIdx isBoundary a i = none) :
+    findIdx isBoundary (a ++ b) i = findIdx isBoundary ((a ++ b).drop a.length) (i + a.length) :=
+  resume_unquoted b h
+
+example : findIdx isBoundary [97, 98] 0 = none := by decide
+
+/-- **comments and other `None`-state carries are re-scanned from their first byte**: if the scan passes over
+all of `pre` (blanks, complete comments, a BOM at the very start), the scan of `pre ++ x` is the scan of `x`
+at offset `|pre|` — so dropping `pre` and re-scanning the carried bytes loses nothing. -/
+theorem C07_resume_comment {pos0 : Bool} {pre : Bytes} {i : Nat} {bom bom' : Bom}
+    (h : Skips pos0 pre i bom bom') (x : Bytes) :
+    fbLoop pos0 (pre ++ x) .top i bom = fbLoop pos0 x .top (i + pre.length) bom' :=
+  h.fbLoop x
+
+example : Skips false [32, 35, 97, 10, 9] 0 .unknown .unknown :=
+  .blank (by decide) (.comment (a := [97]) (by decide) (.blank (by decide) (.nil _ _)))
+
+/-! ### no token is split -/
+
+/-- a token that the scan of a window decides is the token the scan of every extension of that window decides:
+same bytes, same advance, same BOM state.  (A refill can therefore never turn one token into two.) -/
+theorem C07_no_token_split {pos0 : Bool} {w : Bytes} {bom bom' : Bom} {adv : Nat} {t : Token} (b : Bytes)
+    (h : fbLoop pos0 w .top 0 bom = (bom', .tok adv t)) :
+    fbLoop pos0 (w ++ b) .top 0 bom = (bom', .tok adv t) :=
+  fbLoop_stable b h
+
+example : fbLoop true [32, 97, 98, 61] .top 0 .unknown = (.unknown, .tok 3 (.unquoted [97, 98])) := by decide
+
+/-! ### schedule independence of the fallback path -/
+
+/-- **one call, every schedule.**  Let the reader be at stream position `pos` with BOM state `bom`, let `d` be its
+window followed by the bytes the `Read` has not delivered yet (`Rel`), the schedule fault-free, and the buffer larger
+than `|d|` (or the reader a slice reader).  Then `next_opt_fallback` returns exactly what the byte-at-a-time reference
+step over the whole of `d` prescribes — the same token, the same clean end, the same `Eof` and error position — however
+the window currently splits `d` and however the remaining bytes arrive; and it leaves the reader related to the rest. -/
+theorem C07_fallback_call_eq_spec (r : Reader) (pos : Nat) (bom : Bom) (d : Bytes) (fuel : Nat)
+    (hrel : Rel r pos bom d) (hfuel : 2 * r.src.rest.length + 4 ≤ fuel) :
+    Out (nextOptFallback fuel r) pos bom d :=
+  run_fallback_spec _ r pos bom d fuel rfl hrel hfuel
+
+/-- the reference step is total: it always prescribes a token, a clean end, or `Eof`. -/
+theorem C07_spec_total (pos0 : Bool) (bom : Bom) (d : Bytes) : (specStep pos0 bom d).isSome = true :=
+  specStep_isSome pos0 bom d
+
+/-- the start states are related to the whole input -/
+theorem C07_start_related (cap : Nat) (sched : List Step) (data : Bytes) (hcap : data.length < cap) (hw : WfSched sched) :
+    Rel (fromReader cap sched data) 0 .unknown data ∧ Rel (fromSlice data) 0 .unknown data := by
+  constructor
+  · exact ⟨rfl, rfl, by simp [fromReader], hw, Or.inr (by simpa [fromReader] using hcap)⟩
+  · exact ⟨rfl, rfl, by simp [fromSlice], by intro x hx; simp [fromSlice] at hx, Or.inl ⟨rfl, rfl⟩⟩
+
+/-- **C07, fast path out of play, partial.**  For every input, every fault-free read schedule (any sizes ≥ 1,
+`repeat`, unlimited) and every buffer capacity larger than the input, the streamed token sequence equals the
+from-slice token sequence, the terminal outcome (clean end vs error) is the same, and at a clean end the final
+position of both readers is the input length.
+
+Full statement (`C07_fallback_schedule_independent`, not proved): the same for every `cap` such that every token,
+comment and look-ahead of `data` fits (`cap ≥ need data`, the quantity the harness computes in `ref_lex`).
+Missing: a proof that under `cap ≥ need data` no refill carries `cap` or more bytes. -/
+theorem C07_fallback_schedule_independent_partial (data : Bytes) (cap : Nat) (sched : List Step)
+    (hcap : data.length < cap) (hw : WfSched sched) :
+    let s := lexFb (fuelFor data + 2 * sched.length) (fuelFor data) (fromReader cap sched data) []
+    let l := lexFb (fuelFor data) (fuelFor data) (fromSlice data) []
+    s.toks = l.toks ∧ s.out = l.out ∧
+      (s.out = .end_ → s.final.position = data.length ∧ l.final.position = data.length) := by
+  intro s l
+  obtain ⟨h1, h2⟩ := C07_start_related cap sched data hcap hw
+  have := lexFb_agree (fuelFor data) _ _ 0 .unknown data (fuelFor data + 2 * sched.length) (fuelFor data) [] h1 h2
+    (by simp [fuelFor]; omega) (by simp [fuelFor])
+  simpa using this
+
+-- the hypotheses are satisfiable: a 1-byte-at-a-time schedule followed by unlimited reads, buffer of 64 bytes
+example : WfSched [.give 1, .give 1, .give 3, .repeat_ 2] := by
+  intro x hx; simp at hx; rcases hx with rfl | rfl | rfl | rfl <;> simp [WfStep]
+example : (lexFb 100 40 (fromReader 64 [.give 1, .give 1, .give 3, .repeat_ 2]
+    [97, 61, 34, 98, 92, 34, 34, 32, 35, 99]) []).toks = [.unquoted [97], .op .eq, .quoted [98, 92, 34]] := by
+  decide +kernel
+
+/-- two different schedules (and window states) agree with each other, not only with the slice reader. -/
+theorem C07_two_schedules_agree (r1 r2 : Reader) (pos : Nat) (bom : Bom) (d : Bytes) (n f1 f2 : Nat)
+    (h1 : Rel r1 pos bom d) (h2 : Rel r2 pos bom d) (hf1 : 2 * d.length + 4 ≤ f1) (hf2 : 2 * d.length + 4 ≤ f2) :
+    (lexFb f1 n r1 []).toks = (lexFb f2 n r2 []).toks ∧ (lexFb f1 n r1 []).out = (lexFb f2 n r2 []).out :=
+  let h := lexFb_agree n r1 r2 pos bom d f1 f2 [] h1 h2 hf1 hf2
+  ⟨h.1, h.2.1⟩
+
+/-
+Not proved; statements kept as the obligations (all three are exercised on the real code by the L3 oracles
+`stream-vs-slice`, `slice-vs-reference`, `overflow-not-error`, `full-although-fits` of harness/src/props/c07.rs):
+
+theorem C07_fast_eq_fallback (fuel : Nat) (r : Reader) (h : 1 ≤ fuel) :
+    nextOpt fuel r and nextOptFallback fuel r return the same token; the readers they leave are equal, or differ by
+    exactly one consumed space (the "advance one on space" quirk after a fast-path unquoted scalar).
+
+theorem C07_stream_eq_slice (data cap sched) (hfit : need data ≤ cap) (hw : WfSched sched) :
+    (streamTokens cap sched data).toks = (sliceTokens data).toks ∧ same outcome ∧
+    (clean end → final position = data.length)
+
+theorem C07_overflow_is_error (data cap sched) (h : cap < need data) (hw : WfSched sched) :
+    (streamTokens cap sched data).out is an error ∧ (streamTokens cap sched data).toks is a prefix of (sliceTokens data).toks
+-/
 
 end Jomini.Props.C07
